@@ -179,6 +179,13 @@ func c15(ctx *Ctx) (*Outcome, error) {
 		off.Pair = &sem.Case{Root: root, Sig: off.Sig, Args: []string{"--min-sized-ints"}}
 		cases = append(cases, off)
 	}
+	// nullable named definitions (recorded finding named-nullable-scalar-no-rules shows on the flag-off side)
+	for i := 0; i < 4; i++ {
+		off := nullableDefCase(i)
+		off.NoAuto = true
+		off.Pair = &sem.Case{Root: off.Root, Sig: off.Sig, Args: []string{"--min-sized-ints"}}
+		cases = append(cases, off)
+	}
 	// pinned witness of the recorded finding minsized-regenerated-node
 	{
 		def := &sg.Schema{Types: []string{"object"}, Props: []sg.Prop{{Name: "b", S: &sg.Schema{Types: []string{"integer"}, Min: sg.Fp(-128), Max: sg.Fp(0)}}}, Required: []string{"b"}}
@@ -246,7 +253,7 @@ func c15(ctx *Ctx) (*Outcome, error) {
 					if s.Target == nil || !isPlainInt(s.Target) {
 						continue
 					}
-					chosen = gocheck.UnderlyingOf(p.Report.Fset, p.Report.File, strings.TrimPrefix(strings.TrimPrefix(s.Ref, "#/$defs/"), "#/definitions/"))
+					chosen = strings.TrimPrefix(gocheck.UnderlyingOf(p.Report.Fset, p.Report.File, strings.TrimPrefix(strings.TrimPrefix(s.Ref, "#/$defs/"), "#/definitions/")), "*")
 					s = s.Target
 				} else {
 					if !isPlainInt(s) {
